@@ -1,4 +1,4 @@
-/* C09 — behaviour depends on each connection's byte stream, not on its segmentation.
+/* C09 - behaviour depends on each connection's byte stream, not on its segmentation.
  * section 0: a corpus of multi-connection sessions; every alternative delivery schedule of the same bytes (single and
  *            pair split points, single bytes, coalescing of consecutive messages, a later message's proper prefix riding
  *            in an earlier batch in both dispatch orders) is compared with the baseline schedule run as a twin execution.
